@@ -96,6 +96,11 @@ def _format_terms(terms: Iterable[tuple[TVector, cirq.TParamValComplex]], format
     return s
 
 
+def _every_vector_is_valid(vector: Any) -> bool:
+    # A module-level function (rather than a lambda) so that LinearDict instances can be pickled.
+    return True
+
+
 class LinearDict(Generic[TVector], MutableMapping[TVector, 'cirq.TParamValComplex']):
     """Represents linear combination of things.
 
@@ -128,7 +133,7 @@ class LinearDict(Generic[TVector], MutableMapping[TVector, 'cirq.TParamValComple
                 are valid.
         """
         self._has_validator = validator is not None
-        self._is_valid = validator or (lambda x: True)
+        self._is_valid = validator or _every_vector_is_valid
         self._terms: dict[TVector, cirq.TParamValComplex] = {}
         if terms is not None:
             self.update(terms)
